@@ -2,7 +2,7 @@
    reference tally for every history; histogram snapshot counts; Close of a
    subscope. *)
 From Coq Require Import ZArith List Bool Lia Permutation.
-From Tally Require Import Base.Obs Model.Buckets Proof.BucketsP Model.Snapshot.
+From Tally Require Import Base.ObsCore Model.Buckets Proof.BucketsP Model.Snapshot.
 Import ListNotations.
 Open Scope Z_scope.
 
